@@ -356,7 +356,10 @@ func (ctx *Context) LoadNameWithDetail(name string, isRaw bool, useHook bool, de
 		name, overwrite = ctx.Config.HookValueLoadPre(ctx, name)
 
 		if overwrite != nil {
-			// 使用弄进来的替代值进行计算
+			// 使用弄进来的替代值进行计算；过程文本里记下的也是这个值
+			if detail != nil {
+				detail.Ret = overwrite
+			}
 			return overwrite
 		}
 	}
